@@ -53,7 +53,7 @@ ESC = b'\x1d'
 
 def shards(tier):
     q = tier == 'quick'
-    return [{'kind': 'interact', 'n': 20 if q else 400} for _ in range(16)]
+    return [{'kind': 'interact', 'n': 40 if q else 500} for _ in range(16)]
 
 
 FILTERS = {
